@@ -214,6 +214,12 @@ class SymVC(BaseVC):
         from . import orth
         if isinstance(a, (orth.LVec, orth.LMat, orth.LState)):
             return orth.leq(a, b)
+        if isinstance(a, GVec) or isinstance(b, GVec):
+            # coefficient-wise in the (formally independent) base vectors: sufficient for equality
+            if not (isinstance(a, GVec) and isinstance(b, GVec)):
+                return False
+            keys = set(a.c) | set(b.c)
+            return sym.And([sym.sbool(a.c.get(k, 0) == b.c.get(k, 0)) if isinstance(a.c.get(k, 0) == b.c.get(k, 0), SBool) else bool(a.c.get(k, 0) == b.c.get(k, 0)) for k in sorted(keys, key=repr)])
         if isinstance(a, np.ndarray) or isinstance(b, np.ndarray):
             a, b = np.asarray(a, dtype=object), np.asarray(b, dtype=object)
             if a.shape != b.shape:
@@ -673,7 +679,7 @@ def discharge(o, inputs, opts, scale=None):
     return {"verdict": "unsat", "backend": backends[0] if len(set(backends)) == 1 else "+".join(sorted(set(backends))), "seconds": total}
 
 
-def _z3_to_sympy(t, cache, syms):
+def _z3_to_sympy(t, cache, syms, dens=None):
     import sympy
     k = t.get_id()
     if k in cache:
@@ -686,7 +692,7 @@ def _z3_to_sympy(t, cache, syms):
         r = syms.setdefault(t.decl().name(), sympy.Symbol("v%d" % len(syms)))
     else:
         kind = t.decl().kind()
-        ch = [_z3_to_sympy(c, cache, syms) for c in t.children()]
+        ch = [_z3_to_sympy(c, cache, syms, dens) for c in t.children()]
         if kind == z3.Z3_OP_ADD:
             r = sympy.Add(*ch)
         elif kind == z3.Z3_OP_MUL:
@@ -699,6 +705,9 @@ def _z3_to_sympy(t, cache, syms):
             r = ch[0]
         elif kind == z3.Z3_OP_DIV and ch[1].is_number and ch[1] != 0:
             r = ch[0] / ch[1]
+        elif kind == z3.Z3_OP_DIV and dens is not None:
+            dens.append(t.arg(1))  # must be shown non-zero under the hypotheses
+            r = ch[0] / ch[1]
         elif kind == z3.Z3_OP_POWER and ch[1].is_Integer and ch[1] >= 0:
             r = ch[0] ** ch[1]
         else:
@@ -707,16 +716,45 @@ def _z3_to_sympy(t, cache, syms):
     return r
 
 
-def _sympy_identity(goal):
-    """back end 'sympy-ring': a goal  lhs == rhs  between polynomial terms (rational coefficients) is discharged when
-    expand(lhs - rhs) is the zero polynomial (true for all values of the variables, hence under any hypotheses)."""
+def _sympy_identity(goal, hyps=()):
+    """back end 'sympy-ring': a goal  lhs == rhs  between rational-function terms is discharged when the numerator of
+    lhs - rhs lies in the polynomial ideal generated by the equational hypotheses (remainder 0 modulo a Groebner basis;
+    with no hypotheses: the zero polynomial).  Every symbolic denominator must be non-zero under the hypotheses (z3)."""
     try:
         import sympy
         if not (z3.is_eq(goal) and z3.is_arith(goal.arg(0))):
             return False
-        cache, syms = {}, {}
-        d = _z3_to_sympy(goal.arg(0), cache, syms) - _z3_to_sympy(goal.arg(1), cache, syms)
-        return sympy.expand(d) == 0
+        cache, syms, dens = {}, {}, []
+        d = _z3_to_sympy(goal.arg(0), cache, syms, dens) - _z3_to_sympy(goal.arg(1), cache, syms, dens)
+        if not dens:
+            if sympy.expand(d) == 0:
+                return True
+        for den in dens:
+            s = z3.Solver()
+            s.set("timeout", 3000)
+            s.add(*hyps)
+            s.add(den == 0)
+            if s.check() != z3.unsat:
+                return False
+        num = sympy.numer(sympy.together(d))
+        num = sympy.expand(num)
+        if num == 0:
+            return True
+        gens = []
+        for h in hyps:
+            if z3.is_eq(h) and z3.is_arith(h.arg(0)):
+                try:
+                    g = sympy.expand(sympy.numer(sympy.together(_z3_to_sympy(h.arg(0), cache, syms, []) - _z3_to_sympy(h.arg(1), cache, syms, []))))
+                    if g != 0 and g.free_symbols & num.free_symbols:
+                        gens.append(g)
+                except ValueError:
+                    pass
+        if not gens:
+            return False
+        symbols = sorted(set().union(*[g.free_symbols for g in gens]) | num.free_symbols, key=str)
+        gb = sympy.groebner(gens, *symbols, order="grevlex")
+        _, rem = sympy.reduced(num, list(gb.exprs), *symbols, order="grevlex")
+        return rem == 0
     except Exception:
         return False
 
@@ -792,7 +830,7 @@ def _discharge1(o, inputs, opts, scale=None):
     if z3.is_true(goal_s):
         return {"verdict": "unsat", "backend": "simplify", "seconds": 0.0}
     t0 = time.time()
-    if opts.get("sympy_ring", True) and _forked(lambda: ("unsat" if _sympy_identity(o.goal) else "unknown", None, ""), 20)[0] == "unsat":
+    if opts.get("sympy_ring", True) and _forked(lambda: ("unsat" if _sympy_identity(o.goal, list(o.axioms) + list(o.pc)) else "unknown", None, ""), opts.get("sympy_timeout_s", 30))[0] == "unsat":
         return {"verdict": "unsat", "backend": "sympy-ring", "seconds": time.time() - t0}
 
     def with_model(solve):
